@@ -85,7 +85,7 @@ var transformers = map[string]bool{
 	"(*encoding/base64.Encoding).EncodeToString": true, "strings.TrimPrefix": true, "strings.TrimSuffix": true, "strings.TrimSpace": true,
 	"strings.ToLower": true, "strings.ToUpper": true, "strings.Join": true, "strings.Fields": true, "strings.Replace": true, "strings.ReplaceAll": true,
 	"(time.Time).Add": true, "(time.Time).UTC": true, "net/http.CanonicalHeaderKey": true, "strings.Trim": true, "strings.TrimRight": true, "strings.TrimLeft": true,
-	"(error).Error": true, "html.EscapeString": true, "net/url.PathEscape": true, "path.Join": true, "strings.Split": true, "strings.SplitN": true,
+	"(error).Error": true, "(*bytes.Buffer).Bytes": true, "(*bytes.Buffer).String": true, "html.EscapeString": true, "net/url.PathEscape": true, "path.Join": true, "strings.Split": true, "strings.SplitN": true,
 }
 
 func (cx *Ctx) newVFlow(entryKey string, entries ...*ssa.Function) *VFlow {
@@ -604,16 +604,6 @@ func (vf *VFlow) objLabels(v ssa.Value, depth int) LabelSet {
 	case *ssa.IndexAddr:
 		for l := range vf.objLabels(x.X, depth+1) {
 			if strings.HasPrefix(l, "via:") {
-				continue
-			}
-			if strings.HasPrefix(l, "alloc:") {
-				// element objects of a local container: the values stored into it
-				tmp := LabelSet{}
-				vf.allocElems(l, 0, tmp, map[string]bool{}, depth+1)
-				for k := range tmp {
-					out.add(k, 0)
-				}
-				out.add(l+"[]", 0)
 				continue
 			}
 			out.add(l+"[]", 0)
